@@ -16,6 +16,7 @@ import (
 	"sync"
 	"time"
 
+	"github.com/gogo/protobuf/proto"
 	"github.com/pingcap/kvproto/pkg/metapb"
 	"github.com/pingcap/log"
 	"github.com/tikv/pd/pkg/mock/mockid"
@@ -83,6 +84,8 @@ type world struct {
 	main    *cluster.RaftCluster
 	reader  *core.Storage
 	threads map[int]*thread
+	par     int         // operations still to be issued while a flush runs in its own goroutine
+	parDone chan string // its result
 }
 
 func (w *world) newStorage(base kv.Base) *core.Storage {
@@ -101,6 +104,7 @@ func (w *world) facade(st *core.Storage) *cluster.RaftCluster {
 }
 
 func newWorld(wb bool, opt *config.PersistOptions) *world {
+	journal.Begin(map[string]interface{}{"wb": wb})
 	ctx, cancel := context.WithCancel(context.Background())
 	w := &world{ctx: ctx, cancel: cancel, wb: wb, bc: core.NewBasicCluster(), base: kv.NewMemoryKV(), opt: opt, threads: map[int]*thread{}}
 	if wb {
@@ -147,7 +151,7 @@ var panicked []string // descriptions of panics inside processRegionHeartbeat (r
 
 func resObs(err error) string {
 	if pe, ok := err.(panicErr); ok {
-		panicked = append(panicked, pe.Error())
+		panicked = append(panicked, "processRegionHeartbeat: "+pe.Error())
 		return "HoRes HBad"
 	}
 	if err != nil {
@@ -174,6 +178,62 @@ type hop struct {
 	R   *c07x.Region `json:"r,omitempty"` // what the driver asked for
 	P   *c07x.Region `json:"p,omitempty"` // projection of the real RegionInfo (what the model sees)
 	IDs []uint64     `json:"ids,omitempty"`
+	Pad int          `json:"pad,omitempty"` // saveraw: number of filler peers in the saved meta (size only, not part of the model)
+	Par int          `json:"par,omitempty"` // flush: runs in its own goroutine while the next Par operations are issued
+}
+
+// journal of the running case (kept by the child process, read by the supervising parent after a crash)
+var journal *c07x.OpLog
+
+var opFunc = map[string]string{"hb": "processRegionHeartbeat", "begin": "processRegionHeartbeat", "step": "processRegionHeartbeat",
+	"run": "processRegionHeartbeat", "flush": "Storage.Flush", "snap": "ScanRegions+LoadRegion", "saveraw": "Storage.SaveRegion"}
+
+var fillers = map[int][]*metapb.Peer{}
+
+func fillerPeers(n int) []*metapb.Peer {
+	if f, ok := fillers[n]; ok {
+		return f
+	}
+	f := make([]*metapb.Peer, n)
+	for i := range f {
+		f[i] = &metapb.Peer{Id: uint64(1000000 + i), StoreId: uint64(1000000 + i)}
+	}
+	fillers[n] = f
+	return f
+}
+
+// safeExec: a panic of the real code under the driver's input is a failing input (reported by emit), not a driver failure
+func (w *world) safeExec(o *hop) (ob string) {
+	defer func() {
+		if e := recover(); e != nil {
+			panicked = append(panicked, fmt.Sprintf("%s: %v", opFunc[o.K], e))
+			ob = "HoRes HBad"
+		}
+	}()
+	return w.exec(o)
+}
+
+// run = journal + safeExec; a flush with Par > 0 overlaps the next Par operations: it runs in its own goroutine, a moment
+// later (it holds the region storage's mutex and is marshalling a large batch by then) the next operations are issued
+// from this goroutine.  The real code holds RegionStorage.mu across the whole flush, so they wait for it: the history is
+// equivalent to the sequential one that is recorded (flush first).
+func (w *world) run(o *hop) string {
+	journal.Op(o)
+	if o.K == "flush" && o.Par > 0 {
+		done := make(chan string, 1)
+		fl := *o
+		go func() { done <- w.safeExec(&fl) }()
+		time.Sleep(4 * time.Millisecond)
+		w.par, w.parDone = o.Par, done
+		return "HoUnit"
+	}
+	ob := w.safeExec(o)
+	if w.par > 0 {
+		if w.par--; w.par == 0 {
+			<-w.parDone
+		}
+	}
+	return ob
 }
 
 func (o hop) coq() string {
@@ -188,6 +248,8 @@ func (o hop) coq() string {
 		return fmt.Sprintf("ORun %d", o.T)
 	case "flush":
 		return "OFlush"
+	case "saveraw":
+		return "OSaveRaw " + o.P.Coq()
 	case "snap":
 		xs := make([]string, len(o.IDs))
 		for i, v := range o.IDs {
@@ -291,6 +353,18 @@ func (w *world) exec(o *hop) string {
 		case <-time.After(10 * time.Second):
 			panic("run: thread did not finish")
 		}
+	case "saveraw":
+		info := core.RegionFromHeartbeat(o.R.Heartbeat())
+		p := c07x.Project(info)
+		o.P = &p
+		m := proto.Clone(info.GetMeta()).(*metapb.Region)
+		if o.Pad > 0 {
+			m.Peers = fillerPeers(o.Pad)
+		}
+		if err := w.reader.SaveRegion(m); err != nil {
+			panic(err)
+		}
+		return "HoUnit"
 	case "flush":
 		if err := w.reader.Flush(); err != nil {
 			panic(err)
@@ -362,12 +436,12 @@ func (g *gen) idList() []uint64 {
 
 func (g *gen) raw(o hop) string {
 	if len(panicked) > 0 {
-		return "" // the real object may be half-updated after a panic: nothing more is run in this process
+		return "" // the real object may be half-updated after a panic: nothing more is run in this case
 	}
 	if time.Since(g.last) > 2*time.Second {
 		g.c.slow = true // the background flush of RegionStorage may have fired: the case is re-run
 	}
-	ob := g.w.exec(&o)
+	ob := g.w.run(&o)
 	g.last = time.Now()
 	g.c.Ops = append(g.c.Ops, o)
 	g.c.Obs = append(g.c.Obs, ob)
@@ -576,6 +650,33 @@ func overtakenSaveProbe(opt *config.PersistOptions, wb bool) hcase {
 	return c
 }
 
+// a displacing heartbeat processed while a flush of the write-back batch is in progress (write-back backend, heartbeats one at a
+// time): 40 ballast regions whose metas share one slice of 60 000 filler peers make the marshal loop of the flush long; region 1's
+// save is pending in the same batch; 4 ms after the flush started, the heartbeat of region 2 displaces region 1.  RegionStorage.mu is
+// held across the whole flush, so DeleteRegion(1) waits and the history equals the sequential one recorded here; a flush that
+// releases the mutex before it writes lets the delete slip in between and then writes region 1 back (storage clause of the monitor).
+func flushRaceCase(opt *config.PersistOptions) hcase {
+	c := hcase{WB: true, tags: map[string]int{"directed:displacing-heartbeat-during-flush": 1}}
+	w := newWorld(true, opt)
+	defer w.close()
+	g := &gen{r: rng.New(1), w: w, c: &c, ids: map[uint64]bool{}, last: time.Now()}
+	g.raw(hop{K: "snap"})
+	for i := 0; i < 40; i++ {
+		x := c07x.Region{ID: uint64(100 + i), Start: fmt.Sprintf("k%03d", i), End: fmt.Sprintf("k%03d", i+1), Peers: []c07x.Peer{{ID: uint64(1000 + i), Store: 1}},
+			Leader: uint64(1000 + i), Size: 1, Ver: 1, ConfVer: 1, Term: 1, Stamp: int64(100 + i)}
+		g.raw(hop{K: "saveraw", R: &x, Pad: 60000})
+	}
+	a := c07x.Region{ID: 1, Start: "a", End: "c", Peers: []c07x.Peer{{ID: 11, Store: 1}, {ID: 12, Store: 2}}, Leader: 11, Size: 10, Ver: 1, ConfVer: 1, Term: 1, Stamp: 1}
+	b := c07x.Region{ID: 2, Start: "a", End: "c", Peers: []c07x.Peer{{ID: 21, Store: 1}, {ID: 22, Store: 2}}, Leader: 21, Size: 10, Ver: 2, ConfVer: 1, Term: 1, Stamp: 2}
+	g.step(hop{K: "hb", R: &a}) // SaveRegion(1) pending in the batch
+	g.ids[b.ID] = true
+	g.raw(hop{K: "flush", Par: 1})
+	g.raw(hop{K: "hb", R: &b}) // displaces region 1 while the flush is in progress
+	g.raw(hop{K: "snap", IDs: g.idList()})
+	g.step(hop{K: "flush"})
+	return c
+}
+
 // the automatic flush of the write-back batch counts saves only: 99 saves, one of them displaced (a delete that must not
 // touch cacheSize), then the 100th save flushes.  A Remove that resets or bumps the counter moves the flush.
 func autoFlushRegression(opt *config.PersistOptions) hcase {
@@ -624,7 +725,16 @@ func main() {
 	tier := flag.String("tier", "quick", "")
 	corpus := flag.String("corpus", "", "json file of fixed cases run first")
 	replay := flag.String("replay", "", "json file with cases: run and print observations")
+	child := flag.Bool("child", false, "internal: this process runs the cases (the parent supervises it)")
+	oplog := flag.String("oplog", "", "internal: journal of the running case")
 	flag.Parse()
+	// the cases run in a child process: a fatal runtime error of the real code that recover() cannot catch is reported by the
+	// parent with the journalled case
+	c07x.Supervise(*child || *replay != "", "C06", *seed, *tier, *out, func(h, last map[string]interface{}) string {
+		k, _ := last["k"].(string)
+		return opFunc[k]
+	})
+	journal = c07x.OpenOpLog(*oplog)
 	log.ReplaceGlobals(zap.NewNop(), nil)
 	opt := config.NewTestOptions()
 
@@ -641,7 +751,10 @@ func main() {
 	var all []hcase
 	emit := func(c hcase) {
 		if len(panicked) > 0 {
-			R.Violate("C06:heartbeat-processing-panicked", panicked[0], map[string]interface{}{"wb": c.WB, "ops": c.Ops, "obs": c.Obs})
+			fn := strings.SplitN(panicked[0], ":", 2)[0]
+			R.Violate("C06:implementation-panicked:"+fn, panicked[0], map[string]interface{}{"wb": c.WB, "ops": c.Ops, "obs": c.Obs})
+			R.Count("panicked:" + fn)
+			panicked = nil // the next case has its own cluster and storage
 			return
 		}
 		for k, v := range c.tags {
@@ -683,7 +796,11 @@ func main() {
 			c.Obs = nil
 			c.tags = map[string]int{"fixed": 1}
 			for i := range c.Ops {
-				c.Obs = append(c.Obs, w.exec(&c.Ops[i]))
+				if len(panicked) > 0 {
+					c.Ops = c.Ops[:i]
+					break
+				}
+				c.Obs = append(c.Obs, w.run(&c.Ops[i]))
 			}
 			w.close()
 			emit(c)
@@ -704,6 +821,8 @@ func main() {
 		emit(autoFlushRegression(opt))
 		emit(overtakenSaveProbe(opt, false)) // direct backend only: a save into the write-back batch is not a kv write the harness can park
 		emit(termProbe(opt))
+		emit(flushRaceCase(opt))
+		emit(flushRaceCase(opt))
 		master := rng.New(*seed)
 		small, large := c07x.Small(), c07x.Large()
 		for k := 0; k < *n; k++ {
